@@ -118,6 +118,7 @@ SplitTol(r, a, b) ==
   + 2 + (IF a = b THEN RidgeUnits(r.ST2) ELSE 0)
 SplitClauses(r) ==
   IF r.raised THEN << "no-exception" >>
+  ELSE IF r.offlattice THEN << "result-finite-and-on-the-lattice-of-the-instance" >>
   ELSE IF ~ (r.rows_n = r.n /\ r.cols_n = r.n /\ IsSquare(r.Hs, r.n) /\ r.wlen = r.n /\ IsVec(r.W, r.n))
        THEN << "size-is-param-count" >>
   ELSE IF ~ SplitRowsOk(r) THEN << "cross-point-rows-well-formed" >>
